@@ -18,6 +18,7 @@ From Sccache Require Import Model.Client.
 From Sccache Require Import Model.Startup.
 From Sccache Require Import Model.ServerLife.
 From Sccache Require Import Model.ServerExit.
+From Sccache Require Import Model.MultiAddr.
 Import ListNotations.
 Local Open Scope N_scope.
 Local Open Scope string_scope.
@@ -201,18 +202,59 @@ Definition run_life (x : sx) : sx :=
 (* leg "cut": case = ( k retcode stderr_len ) — a client that has the CompileStarted frame and the first k bytes of
    the CompileFinished frame (retcode, no signal, empty stdout, stderr_len bytes 'w', colour Auto), then EOF.
    result = ( local | finished rc | error ) frame_len *)
+Definition run_cut4 (k rc n : sx) (e : ending) : sx :=
+  let f := {| f_retcode := Some (get_N rc); f_signal := None; f_stdout := [];
+              f_stderr := repeat 119 (N.to_nat (get_N n)); f_color := 2 |} in
+  let o := cut_client_ending (fun _ _ => true) false f (N.to_nat (get_N k)) e in
+  SL [ match o with
+       | RunLocally _ => SL [sym "local"]
+       | ReturnFinished g => SL [sym "finished"; SN (finished_exit g)]
+       | SccacheError _ => SL [sym "error"]
+       end;
+       snat (length (frame (encode_finished f))) ].
+
+(* optional 4th element: how the connection ends — eof (default; orderly close) | reset (aborting close, RST) *)
 Definition run_cut (x : sx) : sx :=
   match x with
-  | SL [k; rc; n] =>
-      let f := {| f_retcode := Some (get_N rc); f_signal := None; f_stdout := [];
-                  f_stderr := repeat 119 (N.to_nat (get_N n)); f_color := 2 |} in
-      let o := cut_client (fun _ _ => true) false f (N.to_nat (get_N k)) in
-      SL [ match o with
-           | RunLocally _ => SL [sym "local"]
-           | ReturnFinished g => SL [sym "finished"; SN (finished_exit g)]
-           | SccacheError _ => SL [sym "error"]
-           end;
-           snat (length (frame (encode_finished f))) ]
+  | SL [k; rc; n] => run_cut4 k rc n Eof
+  | SL [k; rc; n; e] => run_cut4 k rc n (if is_sym "reset" e then close_ending true else close_ending false)
+  | _ => err "bad case"
+  end.
+
+(* leg "lockname": case = path bytes; result = the bytes of the lock file's name *)
+Definition run_lockname (x : sx) : sx := SB (lock_name (get_B x)).
+
+(* leg "multi": case = ( kind retries k ( path ... ) ( (path p i) ... ) ) — several addresses, one common schedule;
+   result = per address ( path quiescent (listening) (live) (clients) ), each computed in the COMMON world *)
+Definition dec_mev (x : sx) : option (path * ev) :=
+  match x with
+  | SL [a; p; i] =>
+      if is_sym "c" p then Some (get_B a, EC (get_N i))
+      else if is_sym "s" p then Some (get_B a, ES (get_N i))
+      else if is_sym "t" p then Some (get_B a, ET (get_N i))
+      else None
+  | _ => None
+  end.
+
+Fixpoint dec_mevs (l : list sx) : option (list (path * ev)) :=
+  match l with
+  | [] => Some []
+  | x :: r => match dec_mev x, dec_mevs r with
+              | Some e, Some es => Some (e :: es)
+              | _, _ => None
+              end
+  end.
+
+Definition run_multi (x : sx) : sx :=
+  match x with
+  | SL [kd; r; k; SL ps; SL es] =>
+      match dec_kind kd, dec_mevs es with
+      | Some a, Some evs =>
+          let l := map get_B ps in
+          let w := mexec lock_name (winit a (N.to_nat (get_N r)) (get_N k) l) evs in
+          SL (map (fun p => SL (SB p :: sbool (quiescentb (get_N k) (sts w p)) :: enc_end (get_N k) (sts w p))) l)
+      | _, _ => err "bad case"
+      end
   | _ => err "bad case"
   end.
 
@@ -238,4 +280,6 @@ Definition dispatch (leg : list N) (x : sx) : sx :=
   else if bytes_eqb leg (bs "life") then run_life x
   else if bytes_eqb leg (bs "cut") then run_cut x
   else if bytes_eqb leg (bs "report") then run_report x
+  else if bytes_eqb leg (bs "lockname") then run_lockname x
+  else if bytes_eqb leg (bs "multi") then run_multi x
   else err "unknown leg".
